@@ -240,6 +240,24 @@ package fsm
 //@   ensures[notindexed] result == nil && s.height >= 2 && txHash != "" ==> !txIndexed(s.store, txHash)
 //@   ensures[window] result == nil && s.height >= 2 && tx.Memo != RLPV2Indicator ==> tx.CreatedHeight <= s.height + BlockAcceptanceRange && tx.CreatedHeight + BlockAcceptanceRange >= s.height
 
+// ---- C20 / C04: a batch withdrawal leaves the pool object in step with the ledgers ----------------------------------------
+// Whether or not the pool is written to state here (`persist`), the pool OBJECT the caller handed in carries, afterwards,
+// the reserve the advanced ledger says is left on this chain's side whenever anything was withdrawn (points to remove and
+// pool points both non-zero): a caller that works on the object and persists it later (the forced withdrawal of an
+// evicted provider) persists exactly what the ledgers say.
+//@ func (*StateMachine).handleBatchWithdraw
+//@   modifies *
+//@   ensures[poolobject] isnil(result) && p != nil && !persist && local(totalPointsToRemove) != 0 && p.TotalPoolPoints != 0 ==> p.Amount == (local ? *x : *y)
+
+// ---- C12: a committees list names each chain once -------------------------------------------------------------------------
+// The tallies credit a validator's stake once per ENTRY of its committees list, membership counts a validator once per
+// committee: the stateless check of stake / edit-stake messages therefore accepts a list only when no chain id occurs
+// twice in it - anywhere, not just next to each other.
+//@ func checkCommittees
+//@   loop 1 invariant[seen] forall k int :: 0 <= k && k < iter ==> indom(seen, committees[k])
+//@   loop 1 invariant[distinct] forall a int, b int :: 0 <= a && a < b && b < iter ==> committees[a] != committees[b]
+//@   ensures[nodup] isnil(result) ==> forall a int, b int :: 0 <= a && a < b && b < len(committees) ==> committees[a] != committees[b]
+
 // ---- C19: a panic while a block is applied is an error, not a crash ---------------------------------------------------
 // ApplyBlock runs on blocks that came off the wire. Its recovery handler is registered before any of the block is
 // looked at, and when it catches a panic it REPORTS it: the error result is set, so the callers (which check nothing
@@ -268,12 +286,16 @@ package fsm
 //@   ensures[accounts] fresh(s.cache.accounts) && (forall k uint64 :: !indom(s.cache.accounts, k))
 //@   ensures[pools] fresh(s.cache.pools) && (forall k uint64 :: !indom(s.cache.pools, k))
 //@   ensures[only] unchanged(s.store, s.slashTracker, s.events, s.cache)
-// wrapping installs a new nested transaction as the working store and hands it back
-//@ func (*StateMachine).TxnWrap
+// wrapping installs a NEW nested transaction - created by this very call on top of the current working store - as the
+// working store and hands it back (checked against the body; the store's NewTxn is ASSUMED to return a new object). A
+// nested store kept from an earlier call and handed out again would carry the writes of a transaction that failed.
+//@ func (lib.StoreI).NewTxn
 //@   trusted
-//@   modifies obj(s)
-//@   ensures isnil(result1) ==> s.store == result0 && !isnil(result0) && fresh(result0)
-//@   ensures unchanged(s.slashTracker, s.cache, s.events)
+//@   pure
+//@   ensures !isnil(result) && fresh(result)
+//@ func (*StateMachine).TxnWrap
+//@   ensures[newnested] isnil(result1) ==> s.store == result0 && !isnil(result0) && fresh(result0)
+//@   ensures[kept] unchanged(s.slashTracker, s.cache, s.events)
 //@ func (*SlashTracker).Clone
 //@   trusted
 //@   pure
